@@ -158,7 +158,17 @@ fn c06_converge() {
     let (h1, op1) = op_for(addr, &mut crdt, b"e1", &BTreeSet::new(), 1);
     let (_h2, op2) = op_for(addr, &mut crdt, b"e2", &BTreeSet::new(), 2);
     let (_h3, op3) = op_for(addr, &mut crdt, b"e3", &[h1].into_iter().collect(), 3);
-    let pool = vec![op1, op2, op3];
+    // second pool: two writers write the same entry bytes on the same (empty) set of children, so their
+    // operations carry the same Merkle node but differ in source and signature
+    let same_entry = choice(2) == 1;
+    let pool = if same_entry {
+        let mut other = RegisterCrdt::new(addr);
+        let (_h, op1b) = op_for(addr, &mut other, b"e1", &BTreeSet::new(), 4);
+        cover("same_entry_two_writers");
+        vec![op1, op1b, op2]
+    } else {
+        vec![op1, op2, op3]
+    };
     // replicas A, B receive the pool in two (symbolically chosen) orders, with one duplicate delivery
     let orders: Vec<Vec<usize>> = vec![vec![0, 1, 2], vec![0, 2, 1], vec![1, 0, 2], vec![1, 2, 0], vec![2, 0, 1], vec![2, 1, 0]];
     let oa = orders[choice(6)].clone();
@@ -175,6 +185,14 @@ fn c06_converge() {
     note(format!("order A {oa:?}, order B {ob:?}"));
     cover("delivered");
     check_bool("converge:same_received_set_same_ops", a.ops() == b.ops());
+    // nothing that was accepted is dropped (membership by equality of the whole operation, not by the set's order)
+    for (r, nm) in [(&a, "A"), (&b, "B")] {
+        let all_kept = pool.iter().all(|p| r.ops().iter().any(|o| o == p)) && r.ops().len() == pool.len();
+        if !all_kept {
+            note(format!("replica {nm} holds {} of {} accepted operations", r.ops().len(), pool.len()));
+        }
+        check_bool("converge:every_accepted_operation_is_held", all_kept);
+    }
     // current values: apply the ops to a CRDT in each replica's order
     let value = |order: &Vec<usize>| {
         let mut c = RegisterCrdt::new(addr);
